@@ -38,6 +38,14 @@ def impl(line):
         if op == 'rule': return rt(mk_rule(p_rule(T)), RuleDescriptor, show_rule)
         if op == 'context': return rt(mk_context(p_context(T)), Context, show_context)
         if op == 'packet': return rt(mk_packet(p_packet(T)), PacketDescriptor, show_packet)
+        if op == 'header':
+            from microschc.rfc8724 import HeaderDescriptor
+            hid = unesc(T.next()); ln = T.nat(); n = T.nat()
+            h = HeaderDescriptor(id=hid, length=ln, fields=[mk_field(p_field(T)) for _ in range(n)])
+            return rt(h, HeaderDescriptor, lambda h: f"{esc(h.id)} {h.length} {len(h.fields)}" + ''.join(f" {esc(sid(f.id))} {show_buf(f.value)} {f.position}" for f in h.fields))
+        if op == 'mapping':
+            from microschc.rfc8724 import MatchMapping
+            return rt(mk_tv(p_tv(T)), MatchMapping, show_tv)
         if op == 'use':
             c = mk_context(p_context(T)); pk = T.next(); d = DirectionIndicator(DIRS[T.next()]); st = MatchStrategy.FIRST if T.next() == 'first' else MatchStrategy.BEST
             def use(ctx):
@@ -91,6 +99,11 @@ def gen(props, tier, rng):
                         g = dict(canon_rfield(f)); g['mo'] = mo; g['cda'] = cda
                         yield f'json rfield {e_rfield(g)}'
         for f in pkt['fields'][:2]: yield f'json field {e_field(f)}'
+        # header descriptors (a dataclass of its own) and match mappings through their own json() / from_json()
+        k = rng.randrange(1, len(pkt['fields']) + 1); hf = pkt['fields'][:k]
+        yield f"json header {esc(rng.choice(['IPv6', 'UDP', 'CoAP', 'my header']))} {sum(len(f['value']) - 2 for f in hf)} {len(hf)} " + ' '.join(e_field(f) for f in hf)
+        for f in rule['fields']:
+            if f['tv'][0] == 'm': yield f"json mapping {e_tv(canon_rfield(f)['tv'])}"
         yield f'json packet {e_packet(pkt)}'
         # descriptors whose fields + payload do not spell the raw packet (semantic CoAP view, right-padded raw buffers)
         p2 = copy.deepcopy(pkt)
